@@ -283,16 +283,17 @@ def render(q, lang='py', sp=None, join_table_id='b'):
     parts = [head] + [c[1] for c in clauses]
     if q.get('with_mod'):
         parts.append(sp.kw('WITH') + S + '(%s)' % q['with_mod'])
+    cm = '#' if lang == 'py' else '//'
     if sp.comment == 'between' and len(parts) > 1:
-        text = parts[0] + '\n# a comment WHERE a1 == 1\n' + '\n'.join(parts[1:])
+        text = parts[0] + '\n' + cm + ' a comment WHERE a1 == 1\n' + '\n'.join(parts[1:])
     else:
         text = sp.sep.join(parts)
     if sp.semicolon:
         text += ';'
     if sp.comment == 'before':
-        text = '# leading comment select\n' + text
+        text = cm + ' leading comment select\n' + text
     elif sp.comment == 'after':
-        text = text + '\n# trailing comment'
+        text = text + '\n' + cm + ' trailing comment'
     return text
 
 
